@@ -3,7 +3,7 @@ import json
 import os
 
 import fields as F
-from core import Result, guard
+from core import Result, guard, stable
 
 RULE = ("random field declarations over every built-in persistent field class with boundary-heavy options (bounds, lengths, regex, "
         "choices, case/strip transforms, required, prefix lengths, allow_ipv4, exists/startdir, encodings, algorithms, item/key/value "
@@ -386,6 +386,87 @@ def config_item_stream(ctx, res, tmp, keypath):
                             dict(case, held=F.enc_val(held), got=F.enc_val(got), basic=repr(basic)[:300]))
 
 
+def option_pairs_stream(ctx, res, tmp, keypath):
+    """options the random declarations never combine (the model has no resolver and no custom level names), checked against the
+    declaration read independently: (a) `HostnameField(resolve=True, allow_ipv4=False)` still refuses every dotted IPv4 literal and
+    `allow_ipv4=True` returns it unchanged (a numeric literal needs no network); (b) `LogLevelField` / `ApplicationModeField` with
+    custom names under every case transformation accept exactly the declared names (after the transformation) and leave the
+    declaration as it was written; (c) a digest value with an EMPTY salt (an unsalted hash: a value the field accepts) has an
+    on-disk form that reads back equal, alone and inside a typed list / dict"""
+    import hashlib
+    import cincoconfig as cc
+    from cincoconfig.fields import DigestValue
+    cfg = cc.Schema()()
+    # (a)
+    for resolve in (False, True):
+        for allow in (False, True):
+            f = cc.HostnameField(resolve=resolve, allow_ipv4=allow)
+            for text in ("10.1.2.3", "192.168.1.1", "0.0.0.0", "255.255.255.255", "127.0.0.1"):
+                case = {"stream": "option-pairs", "field": "hostname", "resolve": resolve, "allow_ipv4": allow, "value": text}
+                res.case(stable(case), kind="option-pairs:hostname")
+                try:
+                    got = f.validate(cfg, text)
+                except Exception:  # noqa
+                    got = REJ
+                if allow and got != text:
+                    res.violate("C05:accepts-exactly:hostname-options", "a dotted IPv4 address was not returned unchanged by a host name field that allows addresses", dict(case, got=repr(got)))
+                elif not allow and got is not REJ:
+                    res.violate("C05:accepts-exactly:hostname-options", "a host name field declared allow_ipv4=False accepted a dotted IPv4 address", dict(case, got=repr(got)))
+    # (b)
+    for cls, arg in ((cc.LogLevelField, "levels"), (cc.ApplicationModeField, "modes")):
+        for case_opt in ("lower", "upper", None):
+            for names in (["TRACE", "debug", "Info"], ["verbose", "quiet"], ["Verbose", "QUIET"]):
+                kw = {arg: list(names), "transform_case": case_opt}
+                if cls is cc.ApplicationModeField:
+                    kw["create_helpers"] = False
+                try:
+                    f = cls(**kw)
+                except Exception:  # noqa
+                    res.case(None, kind="option-pairs:levels:declaration-refused")
+                    continue
+                tr = (lambda x: x.lower()) if case_opt == "lower" else (lambda x: x.upper()) if case_opt == "upper" else (lambda x: x)
+                for text in sorted({n for n in names} | {n.lower() for n in names} | {n.upper() for n in names} | {"other"}):
+                    case = {"stream": "option-pairs", "field": cls.__name__, "names": names, "transform_case": case_opt, "value": text}
+                    res.case(stable(case), kind="option-pairs:levels")
+                    want = tr(text) if tr(text) in names else REJ
+                    try:
+                        got = f.validate(cfg, text)
+                    except Exception:  # noqa
+                        got = REJ
+                    if got != want and not (got is REJ and want is REJ):
+                        res.violate("C05:accepts-exactly:custom-levels", "a level / mode field with custom names does not accept exactly the declared names under its case transformation",
+                                    dict(case, got=None if got is REJ else got, want=None if want is REJ else want))
+                        break
+                if list(getattr(f, arg, names)) != names:
+                    res.violate("C05:accepts-exactly:custom-levels", "the declared names of a level / mode field were rewritten", {"stream": "option-pairs", "field": cls.__name__, "declared": names,
+                                                                                                                                  "now": list(getattr(f, arg))})
+    # (c)
+    for alg in ("md5", "sha256"):
+        hfun = getattr(hashlib, alg)
+        v = DigestValue(b"", hfun(b"" + b"unsalted").digest(), hfun)
+        for shape in ("alone", "list", "dict"):
+            f = cc.ChallengeField(alg) if shape == "alone" else cc.ListField(cc.ChallengeField(alg)) if shape == "list" else cc.DictField(cc.StringField(), cc.ChallengeField(alg))
+            held = v if shape == "alone" else [v] if shape == "list" else {"k": v}
+            case = {"stream": "option-pairs", "field": "challenge", "alg": alg, "shape": shape, "value": "digest value with an empty salt"}
+            res.case(stable(case), kind="option-pairs:unsalted")
+            try:
+                acc = f.validate(cfg, held)
+            except Exception:  # noqa
+                res.case(None, kind="option-pairs:unsalted:rejected")
+                continue
+            try:
+                back = f.to_python(cfg, f.to_basic(cfg, acc))
+                flat = lambda x: [(d.salt, d.digest) for d in ([x] if shape == "alone" else list(x) if shape == "list" else list(x.values()))]
+                okk = flat(back) == flat(acc)
+            except Exception as e:  # noqa
+                okk = False
+            if not okk:
+                res.violate("C05:codec-differs:unsalted-digest", "an accepted digest value with an empty salt does not read back from its on-disk form", case)
+
+
+REJ = object()
+
+
 def run(ctx, n_quick=3000, n_thorough=100000):
     res = Result()
     tmp, keypath, key = setup_tmp(ctx)
@@ -398,6 +479,7 @@ def run(ctx, n_quick=3000, n_thorough=100000):
             cases.append((f, F.gen_value(rng, f, tmp)))
     run_cases(ctx, res, cases, tmp, keypath, key)
     guard(res, "C05", config_item_stream, ctx, res, tmp, keypath)
+    guard(res, "C05", option_pairs_stream, ctx, res, tmp, keypath)
     return res
 
 
